@@ -142,3 +142,46 @@ def run(cx):
             if c == n:
                 rec.append(n)
     cx.add('L-LOOP', 'no-recursion', not rec, 'no directly recursive function in the closure: %s' % (rec or 'none'))
+
+
+_run0 = run
+
+
+def xor_callers(cx):
+    """L-XOR: util::xor_bytes asserts len(a) == len(b) (reviewed site `util::xor_bytes#*panic`).  The reason given
+    there is a precondition on the callers; it is decided here per call site: b is kdf(_, len(a)) and len(a) >= 1
+    (kdf returns exactly klen bytes only for klen >= 1: for klen = 0 it returns one whole block)."""
+    F = cx.F
+    an = L.Analyzer(F, reviewed=REVIEWED)
+    n = 0
+    for name, fn in sorted(F.fns.items()):
+        bs = G.call_blocks(fn, 'util::xor_bytes')
+        if not bs:
+            continue
+        fa = L.FnAnalysis(an, fn)
+        for b in bs:
+            n += 1
+            a0, a1 = G.call_args(fn, fa.P, b)[:2]
+            inst = '%s@%d' % (fn.short, n)
+            k = a1
+            from ..prov import strip
+            k = strip(k)
+            while k.k == 'call' and last(k.name) in ('index', 'deref', 'as_slice', 'as_ref') and k.args:
+                r = strip(k.args[1]) if len(k.args) > 1 else None
+                if r is not None and not (r.k == 'aggr' and r.name == 'RangeFull::RangeFull'):
+                    break
+                k = strip(k.args[0])
+            same_len = False
+            if k.k == 'call' and last(k.name) == 'kdf' and len(k.args) == 2:
+                la, _ = fa.linform(k.args[1])
+                same_len = la == {'len(%s)' % fa.cn.c(a0): 1} and _ == 0
+            lo = fa.slice_len_lower(a0, b)
+            ok = same_len and lo is not None and lo >= 1
+            cx.add('L-XOR', inst, ok, 'xor_bytes(a, b) in %s: b is kdf(_, len(a)): %s; len(a) >= %s established before the call (needs >= 1, kdf(_, 0) is 32 bytes long)' % (fn.short, same_len, lo),
+                   G.where(fn, b), {'a': fa.cn.c(a0)[:200], 'b': fa.cn.c(a1)[:200]})
+    cx.floor('L-XOR', 'callers', n, 2, 'call sites of util::xor_bytes')
+
+
+def run(cx):
+    _run0(cx)
+    xor_callers(cx)
